@@ -55,6 +55,7 @@ type result struct {
 	What    string `json:"what,omitempty"`
 	First   string `json:"first,omitempty"`
 	Ops     []op   `json:"ops,omitempty"`
+	KeysDoc any    `json:"keys,omitempty"`
 }
 
 // ---- alternatives of the extensions the parser interprets ----
@@ -406,6 +407,9 @@ func runCase(idx int, k kase, keys []ech.Key, measure bool) (res result) {
 		if res.Viol == "" {
 			res.Viol, res.What = key, what
 			res.First = echx.Hex(k.First)
+			if k.Keys {
+				res.KeysDoc = echx.KeysDoc(keys)
+			}
 			for _, o := range k.Ops {
 				res.Ops = append(res.Ops, op{Dir: o.Dir, Hex: echx.Hex(o.Data)})
 			}
